@@ -33,8 +33,95 @@ impl Case {
 
 const RAW_TAGS: [&str; 10] = ["iframe", "noembed", "noframes", "noscript", "plaintext", "script", "style", "title", "textarea", "xmp"];
 
+// ---- termination watchdog --------------------------------------------------------------------------------------------------
+// "Tokenisation terminates": the token-count bound below is the logical oracle, but a loop *inside* one call of `next()` never comes
+// back to it (seeded change C16-m8 blocked a check for ever). Every thread therefore notes the input it is working on; a monitor
+// thread looks for an input that has been in work for more than HANG_SECS (inputs are at most a few KiB and take microseconds). In
+// replay mode that is the verdict. In search mode the input is saved and replayed twice in fresh processes: a violation only when both
+// agree, infrastructure trouble (exit 2) otherwise - the wall clock alone never decides.
+const HANG_SECS: u64 = 20;
+type Slot = std::sync::Arc<std::sync::Mutex<Option<(Vec<u8>, std::time::Instant)>>>;
+static SLOTS: std::sync::Mutex<Vec<Slot>> = std::sync::Mutex::new(Vec::new());
+static MONITOR: std::sync::Once = std::sync::Once::new();
+thread_local! {
+    static MY_SLOT: Slot = {
+        let s: Slot = Default::default();
+        SLOTS.lock().unwrap().push(s.clone());
+        s
+    };
+}
+
+fn start_monitor() {
+    MONITOR.call_once(|| {
+        // only in the check binary: the libFuzzer targets have their own -timeout
+        if !std::env::current_exe().ok().and_then(|p| p.file_name().map(|n| n.to_string_lossy().starts_with("rio-check"))).unwrap_or(false) {
+            return;
+        }
+        std::thread::spawn(|| loop {
+            std::thread::sleep(std::time::Duration::from_secs(2));
+            let slots: Vec<Slot> = SLOTS.lock().unwrap().clone();
+            for s in slots {
+                let stuck = match &*s.lock().unwrap() {
+                    Some((input, since)) if since.elapsed().as_secs() >= HANG_SECS => Some(input.clone()),
+                    _ => None,
+                };
+                if let Some(input) = stuck {
+                    report_hang(&input);
+                }
+            }
+        });
+    });
+}
+
+fn report_hang(input: &[u8]) -> ! {
+    let case = Case::from_bytes(input.to_vec());
+    let msg = format!("tokenising {:?} did not end within {HANG_SECS} s (Tokenizer::next() does not return)", String::from_utf8_lossy(input));
+    if std::env::args().any(|a| a == "--replay") {
+        println!("replay: FAIL: {msg}");
+        println!("VIOLATION property=C16 replay={}", std::env::args().last().unwrap_or_default());
+        std::process::exit(1);
+    }
+    let v = Violation { part: "hang-watchdog".to_string(), case: serde_json::to_value(&case).unwrap(), message: msg.clone() };
+    let path = write_replay("C16", &v);
+    let exe = std::env::current_exe().expect("current exe");
+    let confirmed = (0..2).all(|_| {
+        let Ok(mut child) = std::process::Command::new(&exe).args(["C16", "--replay", &path]).stdout(std::process::Stdio::null()).stderr(std::process::Stdio::null()).spawn() else { return false };
+        let start = std::time::Instant::now();
+        loop {
+            match child.try_wait() {
+                Ok(Some(st)) => return st.code() == Some(1),
+                Ok(None) if start.elapsed().as_secs() > 3 * HANG_SECS => {
+                    let _ = child.kill();
+                    return true;
+                }
+                Ok(None) => std::thread::sleep(std::time::Duration::from_millis(200)),
+                Err(_) => return false,
+            }
+        }
+    });
+    if confirmed {
+        println!("failure in part hang-watchdog: {msg}");
+        println!("VIOLATION property=C16 replay={path}");
+        std::process::exit(1);
+    }
+    eprintln!("infrastructure: an input was in work for more than {HANG_SECS} s but its isolated replays ended in time ({path})");
+    std::process::exit(2);
+}
+
+struct InWork(Slot);
+impl Drop for InWork {
+    fn drop(&mut self) {
+        *self.0.lock().unwrap() = None;
+    }
+}
+
 /// The oracle proper, usable from the fuzz target too.
 pub fn check_bytes(input: &[u8], out: &mut Outcome) {
+    start_monitor();
+    let _in_work = MY_SLOT.with(|s| {
+        *s.lock().unwrap() = Some((input.to_vec(), std::time::Instant::now()));
+        InWork(s.clone())
+    });
     let valid_utf8 = std::str::from_utf8(input).is_ok();
     let mut tok = Tokenizer::new(input.to_vec());
     let mut acc: Vec<u8> = Vec::with_capacity(input.len());
@@ -229,6 +316,7 @@ pub fn run(ctx: &Ctx) -> Report {
          no panic/overflow (overflow checks on), accessors Ok on valid UTF-8; exhaustive over the 16-symbol markup alphabet and over a 25-fragment alphabet, random fragment soups and byte strings beyond; \
          non-trivial = >=3 tokens of >=2 kinds, or a raw-text element (script/style/title/textarea/...) was entered; enumerated strings are distinct by construction, random ones by hash",
     );
+    rep.assume("termination inside one call of next() is watched by a monitor thread: an input in work for more than 20 s (normal: microseconds) is replayed twice in fresh processes and reported only when both replays hang too (exit 2 otherwise)");
     rep.assume("Tokenizer::next() never answers with Err, whatever the bytes (the accessors may, on bytes that are not UTF-8)");
     let l1 = ctx.tier.pick(6, 7) as u32;
     let n1 = count_upto(16, l1);
